@@ -89,3 +89,6 @@ PROOFS = [
      'harness': 'void h_MediaType_parseRaw(void) { struct Pistache_Http_Mime_MediaType *a0; char *a1; size_t a2; Pistache_Http_Mime_MediaType_parseRaw(a0, a1, a2); }\n',
      'replace': [ADV, 'Pistache_match_string', 'Pistache_match_literal', 'Pistache_match_raw', 'Pistache_match_until_il', 'Pistache_match_until_c', 'Pistache_match_double', 'Pistache_Http_Mime_Q_fromFloat']},
 ]
+# thorough tier: Q::fromFloat of the real header on every hundredth, its neighbours and values outside [0;1]
+NATIVE_SWEEPS = [{'name': 'quality_values', 'driver': 'qfloat', 'props': ['C18'], 'what': 'Mime::Q::fromFloat', 'link': False,
+                  'argvs': [[repr(k / 100.0)] for k in range(101)] + [[repr(k / 100.0 + 0.004)] for k in range(100)] + [[repr(k / 100.0 + 0.006)] for k in range(100)] + [['-0.01'], ['1.01'], ['nan'], ['inf'], ['-inf'], ['1e300']]}]
